@@ -3,6 +3,7 @@ mod corpus;
 mod decode;
 mod dwarf;
 mod edits;
+mod exec;
 mod gen;
 mod interp;
 mod iso;
